@@ -37,7 +37,7 @@ def okfirst(c):
 def okq(c, q):
     # content of a string written in quote q when nothing is printed afterwards (C02): only its own quote and the backslash are excluded,
     # so the *other* quote character may occur anywhere, also first and last
-    return (c >= 32) & (c < 0x3000) & (c != q) & (c != 92)
+    return (c >= 1) & (c < 0x3000) & (c != q) & (c != 92)           # control characters, line breaks included: multi-line strings are legal
 
 
 def okname(c):
